@@ -105,7 +105,11 @@ def make_target(rng, X, kind, w_true=None, noise=0.5, n_tasks=3, ties=True):
     if kind == "pos":
         return np.exp(np.clip(z / sc * 0.5, -3, 3)) * rng.gamma(2.0, 0.5, size=n) + 1e-3
     if kind == "surv":
-        if ties:
+        if ties == "nonadjacent":
+            # tied event times that never sit in consecutive rows: 1, 2, ..., k, 1, 2, ..., k, ...
+            k = max(2, n // 3)
+            tm = (np.arange(n) % k + 1).astype(float)
+        elif ties:
             tm = rng.integers(1, max(3, n // 4), size=n).astype(float)
         else:
             tm = rng.weibull(1.0, size=n) + 1e-3 * np.arange(n)
